@@ -169,9 +169,9 @@ def plan(tier, seed):
     items = []
     q = tier == "quick"
     for s in SINGLES:
-        items.append(dict(scenario="shutdown", params=dict(layers=[s], busy=True), bounds=dict(P=1 if q else 2, post_release=True)))
+        items.append(dict(scenario="shutdown", params=dict(layers=[s], busy=True), bounds=dict(lpredict=True, P=1 if q else 2, post_release=True)))
         if not q:
-            items.append(dict(scenario="shutdown", params=dict(layers=[s], busy=False), bounds=dict(P=2)))
+            items.append(dict(scenario="shutdown", params=dict(layers=[s], busy=False), bounds=dict(lpredict=True, P=2)))
     for pr in PAIRS:
-        items.append(dict(scenario="shutdown", params=dict(layers=pr, busy=True), bounds=dict(P=0 if q else 1)))
+        items.append(dict(scenario="shutdown", params=dict(layers=pr, busy=True), bounds=dict(lpredict=True, P=0 if q else 1)))
     return items
